@@ -41,6 +41,12 @@ def build(size_only=False, tokens=False):
         infos[name] = info
         exec(compile(src, "<lifted %s>" % name, "exec"), ns)
     ThriftObject.to_bytes = ns["to_bytes"]
+    # ThriftObject.copy (plain Python in the .pyx): the shallow copy make_part_file / merge / __getitem__ rely on
+    src, info = lift.lift("copy", "ThriftObject")
+    infos["copy"] = info
+    cns = dict(ns)
+    exec(compile(src, "<lifted ThriftObject.copy>", "exec"), cns)
+    ThriftObject.copy = cns["copy"]
     ns["DRIFT"] = any(i["drift"] for i in infos.values())
     ns["INFOS"] = infos
     return ns
